@@ -913,6 +913,10 @@ func c12(c *Ctx) {
 				c12FixupAttrs(c, i, rs)
 				return
 			}
+			if i%10 == 6 {
+				c12Export(c, i, rs)
+				return
+			}
 			if i%15 == 14 {
 				c12Fixup(c, i, rs)
 				return
